@@ -31,6 +31,13 @@ def judge_rec(rec, ctx, case, monitor):
     except Exception as e:  # noqa: BLE001
         ctx.count("scan_raised(C01):" + type(e).__name__)
         return
+    if judged and rec.get("wrap"):
+        # the same text once more on the same scanners: results must not depend on what was scanned before
+        try:
+            mon_layers.judge_stack(rec, None, h.md, lambda k, m: report(k + ":second-scan", m), ctx.counters, f.md)
+            ctx.count("rescans_inside_context")
+        except Exception as e:  # noqa: BLE001
+            ctx.count("scan_raised(C01):" + type(e).__name__)
     if judged:
         ctx.count("complete:" + rec["layers"][0]["name"])
         ctx.nontrivial(rec["data"])
